@@ -99,7 +99,7 @@ func libCall(c LibCase) {
 }
 
 func libOne(r *vlib.Run, c LibCase) {
-	pan, where, hang, dur := call(20*time.Second, func() { libCall(c) })
+	pan, where, hang, dur, _ := call(20*time.Second, func() { libCall(c) })
 	r.Eval("lib:"+c.Fn, c.Fn+c.In+c.A)
 	if pan != "" || hang || dur > 4*time.Second {
 		what := fmt.Sprintf("library entry point %s on %d bytes: ", c.Fn, len(c.In)/2)
